@@ -48,7 +48,7 @@ MAX_HIST = {"quick": 9000, "thorough": 60000}
 
 def prefix_maximal(behs):
     """drop histories that are a proper prefix of another one with the same start"""
-    ser = [(b["open0"], [json.dumps(q, sort_keys=True) for q in b["reqs"]]) for b in behs]
+    ser = [((b["open0"], b.get("foreign", False)), [json.dumps(q, sort_keys=True) for q in b["reqs"]]) for b in behs]
     seen = set()
     for o, s in ser:
         for i in range(1, len(s)):
@@ -67,17 +67,17 @@ def chain(edges, rnd, maxchain=40):
     executed one after the other (seeded order) after the common prefix that reaches their state"""
     groups = collections.OrderedDict()
     for e in edges:
-        key = (e["open0"], json.dumps(e["reqs"][:-1], sort_keys=True))
-        g = groups.setdefault(key, {"open0": e["open0"], "prefix": e["reqs"][:-1], "loops": [], "moves": []})
+        key = (e["open0"], e["foreign"], json.dumps(e["reqs"][:-1], sort_keys=True))
+        g = groups.setdefault(key, {"open0": e["open0"], "foreign": e["foreign"], "prefix": e["reqs"][:-1], "loops": [], "moves": []})
         (g["loops"] if e.get("loop") else g["moves"]).append(e["reqs"][-1])
     out = []
     for g in groups.values():
         for q in g["moves"]:
-            out.append({"open0": g["open0"], "reqs": g["prefix"] + [q]})
+            out.append({"open0": g["open0"], "foreign": g["foreign"], "reqs": g["prefix"] + [q]})
         loops = list(g["loops"])
         rnd.shuffle(loops)
         for i in range(0, len(loops), maxchain):
-            out.append({"open0": g["open0"], "reqs": g["prefix"] + loops[i:i + maxchain]})
+            out.append({"open0": g["open0"], "foreign": g["foreign"], "reqs": g["prefix"] + loops[i:i + maxchain]})
     return prefix_maximal(out)
 
 
@@ -122,7 +122,7 @@ TAMPERS = ["none", "body", "tag", "nonce", "swapnonce", "trunc", "short", "empty
 OUTERS = ["ok", "other", "init", "noid", "strid", "bigid", "seq"]
 RAWS = ["notjson", "empty", "string", "number", "null", "true", "nomethod", "emptyobj", "emptyarr", "nullmethod",
         "dup_init_last", "dup_init_first"]
-REPLAY_SAFE = ["tld", "close", "open", "open_badpw", "init", "init_bad", "accounts", "mnemonic", "create_wallet", "unknown"]
+REPLAY_SAFE = ["tld", "close", "open", "open_badpw", "init", "init_bad", "mnemonic", "create_wallet", "unknown"]
 RAW_MEMBERS = ["string", "number", "null", "true", "nomethod", "emptyobj", "nullmethod"]
 
 
@@ -196,7 +196,7 @@ def random_walks(n, rnd, maxlen=30):
             else:
                 q = {"k": "raw", "what": rnd.choice(RAWS)}
             reqs.append(q)
-        out.append({"open0": rnd.random() < 0.5, "reqs": reqs})
+        out.append({"open0": rnd.random() < 0.5, "foreign": rnd.random() < 0.5, "reqs": reqs})
     return out
 
 
@@ -221,7 +221,7 @@ def attach(keys, events, behaviours):
         b = info["b"]
         beh = behaviours[b]
         upto = [e for (ln, e) in by_b[b] if ln <= info["line"] and e.get("ev") == "req"]
-        info["behaviour"] = {"open0": beh["open0"], "reqs": [e["q"] for e in upto]}
+        info["behaviour"] = {"open0": beh["open0"], "foreign": beh.get("foreign", False), "reqs": [e["q"] for e in upto]}
         info["readable"] = [qstr(e["q"]) for e in upto]
         info["last_step"] = {x: upto[-1][x] for x in ("pre", "resp", "post")} if upto else {}
 
@@ -246,6 +246,8 @@ def trace_stats(events):
             st["store_changed"] += 1
         if post["open"] != pre["open"] or post["active"] != pre["active"]:
             st["volatile_changed"] += 1
+        if post["mask"] != pre["mask"]:
+            st["handler_mask_changed"] += 1
         if r["leak_dec"]:
             st["data_in_encrypted_reply"] += 1
         if q["k"] == "enc" and pre["sess"] >= 1 and q["key"] != pre["sess"] and q["key"] >= 1:
@@ -264,7 +266,7 @@ def trace_stats(events):
 
 
 NEEDED = ["key_changed", "key_superseded", "store_changed", "volatile_changed", "data_in_encrypted_reply",
-          "request_under_superseded_key", "tampered_under_current_key", "nested_envelope", "batch", "malformed", "replayed_envelope",
+          "request_under_superseded_key", "tampered_under_current_key", "nested_envelope", "batch", "malformed", "replayed_envelope", "handler_mask_changed",
           "encrypted_init_answered_under_old_key"]
 
 
@@ -325,11 +327,11 @@ def selftest_corrupt(events):
 
 SPEC_MUTANTS = [
     ("decrypt failure falls through to the dispatcher",
-     'THEN [st |-> st, touch |-> FALSE, resp |-> GateErr(-32002)]                  \\* "Decryption error"',
-     'THEN Reply(st, Dispatch(st, q.inner), FALSE, FALSE)'),
+     'THEN Refuse(st, GateErr(-32002))                                             \\* "Decryption error"',
+     'THEN Reply(st, Dispatch(st, q.inner), FALSE, FALSE, FALSE)'),
     ("plain requests pass once a session exists",
-     'THEN [st |-> st, touch |-> FALSE, resp |-> GateErr(-32002)]                  \\* "Encrypted request format error"',
-     'THEN Reply(st, Dispatch(st, q), FALSE, FALSE)'),
+     'THEN Refuse(st, GateErr(-32002))                                             \\* "Encrypted request format error"',
+     'THEN Reply(st, Dispatch(st, q), FALSE, FALSE, FALSE)'),
     ("encrypted init answered under the new key",
      'resp |-> Resp("enc", 0, st.sess,', 'resp |-> Resp("enc", 0, st2.sess,'),
 ]
